@@ -236,7 +236,7 @@ def run_case(case):
 
 
 def gen_cases(tier, seed):
-    n = 90 if tier == "quick" else 1000
+    n = 90 if tier == "quick" else 1600
     cases = []
     for i in range(n):
         rng = rng_for(seed, "c08", i)
